@@ -219,6 +219,31 @@ Proof.
   - unfold toZ. destruct (sneg b); lia.
 Qed.
 
+Lemma smul_toZ0 a b r : wf0 a -> wf0 b -> smul a b = Ok r -> toZ r = toZ a * toZ b /\ wf0 r /\ canon r.
+Proof.
+  unfold wf0, smul; intros Ha Hb H. inv_bind H. inv_ok. arith_ok. subst.
+  split; [| split; [| apply sign_of_product_canon]].
+  - rewrite sign_of_product_toZ. unfold toZ. destruct (sneg a), (sneg b); cbn; lia.
+  - unfold wf0. rewrite sign_of_product_val. nia.
+Qed.
+Lemma sdiv_toZ0 a b r : wf0 a -> wf0 b -> sdiv a b = Ok r -> toZ r = Z.quot (toZ a) (toZ b) /\ wf0 r /\ canon r.
+Proof.
+  unfold wf0, sdiv; intros Ha Hb H. inv_bind H. inv_ok. arith_ok. subst.
+  split; [| split; [| apply sign_of_product_canon]].
+  - rewrite sign_of_product_toZ. unfold toZ. destruct (sneg a), (sneg b); cbn;
+    rewrite ?Z.quot_opp_l, ?Z.quot_opp_r, ?Z.opp_involutive by lia;
+    rewrite Z.quot_div_nonneg by lia; lia.
+  - unfold wf0. rewrite sign_of_product_val. apply Z.div_pos; lia.
+Qed.
+Lemma spos_wf0 v : 0 <= v -> wf0 (spos v).
+Proof. unfold wf0, spos; cbn; auto. Qed.
+Lemma sneg_wf0 v : 0 <= v -> wf0 (sneg_ v).
+Proof. unfold wf0, sneg_; cbn; auto. Qed.
+Lemma toZ_spos v : toZ (spos v) = v.
+Proof. reflexivity. Qed.
+Lemma wf0_toZ_abs a : wf0 a -> sval a = Z.abs (toZ a).
+Proof. unfold wf0, toZ. destruct (sneg a); lia. Qed.
+
 (* ---- checked and unchecked agree ---- *)
 Lemma canon_toZ_eq r r' : wf r -> wf r' -> canon r -> canon r' -> toZ r = toZ r' -> r = r'.
 Proof.
